@@ -39,6 +39,18 @@ type c10Triple struct {
 	B       int  `json:"b"`
 	P       int  `json:"p"`
 	Sampled bool `json:"sampled,omitempty"`
+	// Large: a hand-picked big triple outside the box (sink batches of and around 1000, 2000 entities)
+	Large bool `json:"large,omitempty"`
+}
+
+// c10LargeTriples: batches at the sink of exactly 1000 / 2000 entities (1:1 transform with b=1000 / 2000,
+// duplicating transform with b=500) and neighbours (700, 1400, tails of 500 / 200 / 400).
+var c10LargeTriples = []c10Triple{
+	{N: 1000, B: 1000, P: 1, Large: true},
+	{N: 2500, B: 1000, P: 3, Large: true},
+	{N: 1200, B: 500, P: 2, Large: true},
+	{N: 1400, B: 700, P: 1, Large: true},
+	{N: 2000, B: 2000, P: 4, Large: true},
 }
 
 type c10Run struct {
@@ -86,6 +98,14 @@ func c10BoxTriples(tier string) []c10Triple {
 
 func c10RunsOf(t c10Triple) []c10Run {
 	var rs []c10Run
+	if t.Large {
+		for _, k := range []string{"incremental", "fullsync"} {
+			for _, v := range []string{"stamp", "dup"} {
+				rs = append(rs, c10Run{T: t, Kind: k, Variant: v, Sink: "ds"})
+			}
+		}
+		return rs
+	}
 	vars := c10Variants
 	if t.Sampled {
 		// large sampled triples: the exactly-once variant plus one other, chosen by the triple
@@ -132,6 +152,11 @@ func c10WorkList(ctx *Ctx) (triples []c10Triple, runs []c10Run, boxShare int) {
 			}
 		}
 		boxShare = len(triples)
+		for j, t := range c10LargeTriples {
+			if j%n == idx {
+				triples = append(triples, t)
+			}
+		}
 		if ctx.Tier == "thorough" {
 			r := rand.New(rand.NewSource(ctx.Seed))
 			for i := 0; i < ctx.Cases; i++ {
@@ -364,6 +389,8 @@ func c10Box(ctx *Ctx) error {
 			tags := []string{}
 			if r.T.Sampled {
 				tags = append(tags, "sampled")
+			} else if r.T.Large {
+				tags = append(tags, "large")
 			} else {
 				tags = append(tags, "box")
 			}
@@ -392,7 +419,11 @@ func (st *c10State) ensureSource(n int) (string, error) {
 	var batch []model.Ent
 	for i := 0; i < n; i++ {
 		batch = append(batch, c10SrcEnt(i, n))
-		if len(batch) == 7 || i == n-1 {
+		chunk := 7
+		if n > 600 {
+			chunk = 250 // big sources are loaded in bigger batches
+		}
+		if len(batch) == chunk || i == n-1 {
 			if err := StoreBatch(st.h.Core, name, batch, false); err != nil {
 				return name, err
 			}
@@ -462,8 +493,11 @@ func (st *c10State) runOne(caseID string, pos int, r c10Run, what map[string]any
 	}
 	uneven := r.Kind == "incremental" && c10Uneven(r.T.N, r.T.B, r.T.P)
 	sfx := func(class string) string {
-		if uneven {
+		if uneven && !r.T.Large {
 			return class + "/incr-uneven-parallel-batch"
+		}
+		if r.T.Large {
+			return class + "/large-batch"
 		}
 		return class
 	}
